@@ -68,6 +68,14 @@ def array_pool(pool, h, w, tier):
                 out.append(fs(("r%d" % i)[:w], "red"))
             elif variant == "gaps":
                 out.append(fs("") if i % 2 == 0 else ("s%d" % i)[:w])       # empty FmtStr rows and plain str rows
+            elif variant == "wide":
+                out.append(fs("\u4f60"[:(w - 1) // 2]))               # a double-width character, narrower than the terminal
+            elif variant == "wide-longer":
+                out.append(fs("\u4f60\u597d"[:(w - 1) // 2]))         # the same line extended by another one
+            elif variant == "accent":
+                out.append(fs("e\u0301"))
+            elif variant == "accent-longer":
+                out.append(fs("e\u0301x"[:w - 1]))
             elif variant == "padded":
                 out.append(fs((("p%d" % i) + " " * w)[:w]))       # exactly as wide as the terminal, ending in plain blanks
             elif variant == "bg":
@@ -84,6 +92,9 @@ def array_pool(pool, h, w, tier):
             specs.append((0, n, "gaps"))
         if n in (1, h):
             specs.append((0, n, "padded"))
+        if n == 1:
+            for v_ in ("wide", "wide-longer", "accent", "accent-longer"):
+                specs.append((0, n, v_))
         if n >= h:
             specs.append((1, n, "plain"))
             specs.append((0, n, "full"))
